@@ -1,6 +1,7 @@
 package mon
 
 import (
+	"bytes"
 	"fmt"
 	"sort"
 	"strings"
@@ -406,7 +407,30 @@ func c04WellKnownOptions(c *core.Ctx) {
 			"1.2.3.4", "::1", "[::1]", "1.2.3.4:80", "fe80::1%eth0", "example.i2p", "localhost", "256.1.1.1", "1.2.3", "01.2.3.4", "1.2.3.4 ", "::ffff:1.2.3.4", "0x7f.1",
 			"1", "65535", "65536", "0", "-1", "+80", "080", "8 0", "80\x00", "1e3", "0x50", "９０", "4294967377",
 			"1500", "1280", "1279", "65536", "-1500"}
-		switch r.Pick(6) {
+		switch r.Pick(8) {
+		case 6:
+			// long values (up to the 255 bytes a string can hold): random bytes, one letter repeated,
+			// a dictionary entry repeated, multi-byte UTF-8, an entry behind a long prefix
+			n := []int{64, 127, 128, 129, 200, 254, 255}[r.Pick(7)]
+			switch r.Pick(5) {
+			case 0:
+				return r.Bytes(n)
+			case 1:
+				return bytes.Repeat([]byte{"fRLUXKPO46BC\xc3\xa9\xff"[r.Pick(15)]}, n)
+			case 2:
+				d := dict[1+r.Pick(len(dict)-1)]
+				return bytes.Repeat([]byte(d), n/len(d)+1)[:n]
+			case 3:
+				return utf8OfLen(r, n)
+			default:
+				return append(bytes.Repeat([]byte{byte(0x80 + r.Pick(0x80))}, n-2), "fR"...)
+			}
+		case 7:
+			// a valid-looking value with one non-ASCII or invalid byte in front / inside / behind
+			d := []byte(dict[1+r.Pick(len(dict)-1)])
+			ins := [][]byte{{0xff}, {0x80}, {0xc3, 0xa9}, {0xe2, 0x82, 0xac}, {0xf0, 0x9f, 0x98, 0x80}, {0xc0, 0x80}, {0xed, 0xa0, 0x80}}[r.Pick(7)]
+			k := r.Pick(len(d) + 1)
+			return append(append(append([]byte{}, d[:k]...), ins...), d[k:]...)
 		case 0:
 			return r.Bytes(r.Pick(40))
 		case 1:
